@@ -22,6 +22,8 @@ EXPLANATION = (
     ' R19.5: both converters take their first parameter from get_start_t() = t_at_point(point_at_angle(start'
     " angle)); C05's R05.5 (half-turn correction exactly for |angle| mod 1 turn in (1/4, 3/4], boundaries"
     ' decided by the sign of tan() at the float quarter turns) therefore runs here as well.'
+    " R19.6: the converters follow start + sweep of the arc the solver produced; C05's rule that the radii are"
+    ' made absolute before their first odd-power use runs here as well.'
 )
 TECHNIQUE = (
     "static analysis (no execution): loop-carried continuity and end pinning; control-point formulas as exact canonical forms over opaque trig atoms; structural rules for path-level replacement"
